@@ -160,7 +160,9 @@ def judge_cone_result(c, ctx, pr, sol, opts, prefix, qp=False, external=None, ch
         return v is not None and len(v) == n
     n, p, N = D.G.shape[1], D.A.shape[0], dims.N
 
-    ext_tol = 1e-5 if external else 0.0     # documented: default GLPK/DSDP exit criteria apply
+    # documented: "the default GLPK/DSDP exit criteria apply" - no numbers are promised and DSDP's criteria use other
+    # normalisations, so only gross failures are judged for DSDP (1e-3); GLPK's simplex is held to 1e-5
+    ext_tol = {"glpk": 1e-5, "dsdp": 1e-3}.get(external, 0.0)
 
     if st in ("optimal", "unknown"):
         if external and st == "unknown":
